@@ -44,6 +44,13 @@ PROPS = {
         corrupt=[('look[3] id', _setlook(3))],
         exhaustive_part=True,
     ),
+    'C16': dict(
+        tv=dict(module='SymbolTrieTrace', cfg='SymbolTrieTrace.cfg'),
+        mc=[dict(module='SymbolTrieMC', cfg={'quick': 'SymbolTrieMC.quick.cfg', 'thorough': 'SymbolTrieMC.thorough.cfg'})],
+        corrupt=[('obs.type+1', _bump('obs.type')), ('obs.k+1', _bump('obs.k'))],
+        exhaustive_part=True,
+        assumptions=['guarded hook StringScanner.VerifCursor (consumed characters)'],
+    ),
 }
 
 NOT_APPLICABLE = {}
@@ -70,5 +77,16 @@ DOC = {
         note='Trusted: TLC, Json module, the recorder (pointer identity of the returned reference). Endpoints restricted to the boundary '
              'set of the property and their neighbours; histories longer than 2 are sampled.',
         technique='TLA+ spec + TLC refinement check (CharMapMC) + TLC trace validation of exhaustive/random registration histories (CharMapTrace)',
+    ),
+    'C16': dict(
+        level='SymbolTrie.tla specifies the table as a function symbol -> type with Next = longest registered prefix (else one character '
+              'of type Symbol). SymbolTrieMC.tla checks with TLC that the trie model of SymbolRootNode/SymbolNode (valid flags, deepest '
+              'read, unwinding to the nearest valid ancestor) refines it for every symbol set over {a,b} up to the bound reached by every '
+              'registration order, at every position of every input up to the bound. The real GenericSymbolState is driven with all sets '
+              'of <= 2 (quick) / <= 3 (thorough, plus each of the 16384 subsets once) symbols in every order and random larger sets, each '
+              'instance tokenizing many inputs in sequence; SymbolTrieTrace.tla checks type, text and consumed length of every token.',
+        note='Trusted: TLC, Json module, recorder, hook VerifCursor. Token type 0 (Unknown) is reserved by the implementation as "unset" '
+             'and not generated; re-registering one symbol with another type is not driven.',
+        technique='TLA+ spec + TLC refinement check over all symbol sets (SymbolTrieMC) + TLC trace validation of the real symbol state (SymbolTrieTrace)',
     ),
 }
